@@ -360,6 +360,9 @@ pub fn render(p: &C19Program, cfg: &str, idx: usize) -> String {
     let mut spec = p.spec.clone();
     let (strum, crate_attr): (&str, Option<String>) = match cfg {
         "renamed" => ("strum_x", Some(if idx % 2 == 0 { "strum_x".to_string() } else { "crate::re::strum_x".to_string() })),
+        // a local module named `strum` is in scope as well: the derives are named by absolute path, and the generated code
+        // must reach the crate through `::strum` (its default path) too
+        "shadowed" => ("::strum", None),
         _ => ("strum", None),
     };
     spec.crate_path = crate_attr.clone();
@@ -392,7 +395,7 @@ pub fn render(p: &C19Program, cfg: &str, idx: usize) -> String {
     let dref: Vec<&str> = all.iter().map(|s| s.as_str()).collect();
     let mut o = String::new();
     if cfg == "shadowed" {
-        o.push_str("mod core {}\nmod std {}\n");
+        o.push_str("mod core {}\nmod std {}\nmod strum {}\n");
     }
     o.push_str(&render_enum(&spec, &dref));
     o.push_str(&render_dw_helpers(&spec, "u8"));
